@@ -38,7 +38,12 @@ type KV struct {
 
 func Null() Val                { return Val{T: 'n'} }
 func Bool(b bool) Val          { return Val{T: 'b', B: b} }
-func Int(k byte, i int64) Val  { return Val{T: 'i', K: k, I: strconv.FormatInt(i, 10)} }
+func Int(k byte, i int64) Val {
+	if i < 0 && (k == 'u' || k == 'd') { // unsigned Go types cannot hold it
+		k = 'l'
+	}
+	return Val{T: 'i', K: k, I: strconv.FormatInt(i, 10)}
+}
 func IntS(k byte, s string) Val { return Val{T: 'i', K: k, I: s} }
 func Str(s string) Val         { return Val{T: 's', K: 's', S: s} }
 func URI(s string) Val         { return Val{T: 's', K: 'u', S: s} }
